@@ -794,6 +794,7 @@ func workC18(res *WorkerResult, start time.Time) {
 			if fv, fcs := freshConcFirst(cs); fv != nil {
 				// confirm: the saved case must fail again in another new process
 				if raceRecurs(fcs) {
+					fcs = minimiseRace(fcs, 24)
 					rf := ReplayFile{Property: "C18", Violation: fv, Seed: *flagSeed, Run: run, Tags: *flagTags, C18: fcs, From: map[string]int{"clients": cs.Clients}}
 					path := saveReplay(&rf)
 					res.Violations = append(res.Violations, rf)
